@@ -4,5 +4,6 @@ CONSTANTS
   MinLen = 5
   MaxLen = 6
   Mode = "edit"
+  Stems = "all"
 INVARIANTS Found SharesGram ScoreSafe
 CHECK_DEADLOCK FALSE
